@@ -53,7 +53,11 @@ func findWorkers(c *Check) []Worker {
 			}
 			w := Worker{Fn: mc.Fn.(*ssa.Function), Site: ci}
 			var labels []string
-			for _, cc := range callsIn(w.Fn) {
+			var bodyCalls []ssa.CallInstruction
+			for _, bf := range cmdBody(p, w.Fn) {
+				bodyCalls = append(bodyCalls, callsIn(bf)...)
+			}
+			for _, cc := range bodyCalls {
 				sc := staticCallee(cc.Common())
 				if sc == nil {
 					continue
